@@ -617,6 +617,119 @@ pub fn run(ctx: &Ctx, rep: &Report) {
         pair_total.fetch_add(n, Ordering::Relaxed);
     });
     rep.part("two aircraft, all merge orders", pair_total.load(Ordering::Relaxed), json!({"trajectories": sub.len(), "sequences": seqs.len(), "merge_orders": merges.len()}));
+    // a crowd: one aircraft is heard (fix, silence of 200 s, an even report, then an odd one a second later) and between
+    // its last two reports N other aircraft are heard once each - N beyond any table size a decoder may have chosen
+    // (2^16). What is decoded for the aircraft must not depend on the crowd; the crowd may also come first.
+    let crowd_total = AtomicU64::new(0);
+    {
+        let tr = cat.iter().find(|t| t.name.starts_with("mid latitude") && matches!(t.phase, Phase::Air) && t.kt > 0.0).unwrap_or(&cat[0]);
+        let tp = templates(0x4840d6);
+        let victim_steps = [Step { dt: 0.0, odd: false, dup: false }, Step { dt: 0.4, odd: true, dup: false }, Step { dt: 200.0, odd: false, dup: false }, Step { dt: 1.0, odd: true, dup: false }];
+        if let Some(victim) = build(tr, &tp, &victim_steps) {
+            let solo = run_decoder(&victim.iter().collect::<Vec<_>>(), tr.reference());
+            let sizes: &[usize] = if thorough { &[1000, 70_000, 300_000] } else { &[1000, 70_000] };
+            for n in sizes {
+                let t_mid = victim[2].t + 0.5;
+                let crowd: Vec<Report1> = (0..*n)
+                    .map(|c| {
+                        let tpc = templates(0x100000 + c as u32);
+                        let (yz, xz, _) = encode(10.0 + (c % 50) as f64, 20.0, c % 2 == 1, false);
+                        Report1 { t: t_mid, truth: (10.0 + (c % 50) as f64, 20.0), judge: false, surface: false, msg: make_msg(&tpc, false, c % 2 == 1, yz, xz) }
+                    })
+                    .collect();
+                for place in ["between the last two reports", "before everything"] {
+                    let mut order: Vec<&Report1> = Vec::with_capacity(victim.len() + crowd.len());
+                    let mut crowd_first: Vec<Report1> = Vec::new();
+                    if place == "before everything" {
+                        crowd_first = crowd.iter().map(|r| Report1 { t: victim[0].t - 1.0, truth: r.truth, judge: false, surface: false, msg: r.msg.clone() }).collect();
+                    }
+                    let at: Vec<usize>;
+                    if place == "before everything" {
+                        order.extend(crowd_first.iter());
+                        at = (crowd_first.len()..crowd_first.len() + victim.len()).collect();
+                        order.extend(victim.iter());
+                    } else {
+                        order.extend(victim[..3].iter());
+                        order.extend(crowd.iter());
+                        order.push(&victim[3]);
+                        at = vec![0, 1, 2, 3 + crowd.len()];
+                    }
+                    let both = run_decoder(&order, tr.reference());
+                    crowd_total.fetch_add(1, Ordering::Relaxed);
+                    match (&both, &solo) {
+                        (Ok(b), Ok(s0)) => {
+                            let mine: Vec<_> = at.iter().map(|i| b[*i]).collect();
+                            if &mine != s0 {
+                                rep.violation("interference:crowd", format!("with {n} other aircraft heard {place}, the aircraft's reports are given {mine:?} instead of {s0:?}"), json!({"crowd": n, "place": place, "trajectory": traj_json(tr)}));
+                            }
+                        }
+                        _ => rep.violation("panic:crowd", "decode_positions panicked on a crowd run".into(), json!({"crowd": n, "place": place})),
+                    }
+                }
+            }
+        }
+        rep.part("one aircraft among a crowd of up to 70,000 (thorough 300,000) others", crowd_total.load(Ordering::Relaxed), json!({}));
+    }
+    // time stamps that are not finite: two reports encoded two hours of flight apart (so that pairing them
+    // would be wrong), optionally after a normal fix; whatever position is attached must still be the true one
+    let weird_total = AtomicU64::new(0);
+    {
+        // (finite stamps stay truthful: a finite stamp that contradicts the flight would make a wrong pairing legitimate)
+        let stamps = [f64::NAN, f64::INFINITY, f64::NEG_INFINITY, -0.0];
+        let sub2: Vec<&Traj> = cat.iter().filter(|t| matches!(t.phase, Phase::Air) && t.kt >= 400.0).step_by(5).collect();
+        par_items(ctx.threads, sub2.len(), |ti| {
+            let tr = sub2[ti];
+            let tp = templates(0x4840d6);
+            let mut n = 0u64;
+            for with_fix in [false, true] {
+                for p1 in [false, true] {
+                    for p2 in [false, true] {
+                        let mut steps = Vec::new();
+                        if with_fix {
+                            steps.push(Step { dt: 0.0, odd: false, dup: false });
+                            steps.push(Step { dt: 0.4, odd: true, dup: false });
+                        }
+                        steps.push(Step { dt: if with_fix { 7200.0 } else { 0.0 }, odd: p1, dup: false });
+                        steps.push(Step { dt: 7200.0, odd: p2, dup: false });
+                        let Some(base) = build(tr, &tp, &steps) else { continue };
+                        let k = base.len();
+                        for a in stamps {
+                            for b in stamps {
+                                let mut reports: Vec<Report1> = base.iter().map(|r| Report1 { t: r.t, truth: r.truth, judge: r.judge, surface: r.surface, msg: r.msg.clone() }).collect();
+                                // -0.0 stands for "keep the true time"
+                                if a == 0.0 && b == 0.0 {
+                                    continue;
+                                }
+                                if a != 0.0 {
+                                    reports[k - 2].t = a;
+                                }
+                                if b != 0.0 {
+                                    reports[k - 1].t = b;
+                                }
+                                n += 1;
+                                let wit = json!({"weird_stamps": [format!("{a:e}"), format!("{b:e}")], "with_fix": with_fix, "parities": [p1, p2], "trajectory": traj_json(tr)});
+                                match run_decoder(&reports.iter().collect::<Vec<_>>(), tr.reference()) {
+                                    Err(p) => rep.violation(&format!("panic:timestamps:{}", panic_class(&p)), format!("decode_positions panicked with time stamps {a:e} / {b:e}: {p}"), wit),
+                                    Ok(got) => {
+                                        for (i, (r, g)) in reports.iter().zip(got.iter()).enumerate() {
+                                            if let Some((lat, lon)) = g {
+                                                let d = haversine_m(r.truth.0, r.truth.1, *lat, *lon);
+                                                if r.judge && !(d <= 25.0) {
+                                                    rep.violation("wrong-position:timestamps", format!("with time stamps {a:e} / {b:e} on the last two reports, report {i} encoded at ({:.5},{:.5}) is given ({lat:.5},{lon:.5}), {d:.0} m off", r.truth.0, r.truth.1), wit.clone());
+                                                }
+                                            }
+                                        }
+                                    }
+                                }
+                            }
+                        }
+                    }
+                }
+            }
+            weird_total.fetch_add(n, Ordering::Relaxed);
+        });
+        rep.part("non-finite time stamps on reports two hours of flight apart", weird_total.load(Ordering::Relaxed), json!({"trajectories": sub2.len()}));
+    }
     let g = hist.lock().unwrap();
     let mut nontriv = 0;
     for (i, c) in g.iter().enumerate() {
@@ -627,7 +740,7 @@ pub fn run(ctx: &Ctx, rep: &Report) {
             }
         }
     }
-    let t = total.load(Ordering::Relaxed) + pair_total.load(Ordering::Relaxed);
+    let t = total.load(Ordering::Relaxed) + pair_total.load(Ordering::Relaxed) + crowd_total.load(Ordering::Relaxed) + weird_total.load(Ordering::Relaxed);
     rep.sample(json!({"trajectory": traj_json(&cat[0]), "steps": steps_json(&[Step { dt: 0.0, odd: false, dup: false }, Step { dt: 0.4, odd: true, dup: false }, Step { dt: 9.9, odd: false, dup: false }])}));
     rep.sample(json!({"trajectory": traj_json(cat.iter().find(|t| matches!(t.phase, Phase::Landing(_))).unwrap_or(&cat[0]))}));
     rep.eval(t);
